@@ -60,7 +60,7 @@ func parseReal(s string) parseOutcome {
 	}
 	// the lexer goroutine must be gone (it may need a moment to exit after closing the channel)
 	if leaksSeen < 5 && runtime.NumGoroutine() > baseGoroutines {
-		deadline := time.Now().Add(300 * time.Millisecond)
+		deadline := time.Now().Add(3 * time.Second)
 		for runtime.NumGoroutine() > baseGoroutines && time.Now().Before(deadline) {
 			runtime.Gosched()
 			time.Sleep(50 * time.Microsecond)
